@@ -129,6 +129,15 @@ Definition xev_match (e : xevent) (o : obs) : bool :=
 Definition xhist_ok (c : list xop * list obs) : bool :=
   all2 xev_match (snd (xrun x0 (fst c))) (snd c).
 
+(* a history whose classes come from a PROGRAM of shared tunable objects
+   (Model section 12): [fst c] is Model.prog_in_model of that program and the
+   classes used -- every class statement executes and no class is outside the
+   model (one object under two public names of one class); it is [true] for a
+   history whose classes are written out directly.  A case outside the model
+   counts as a disagreement, it is never silently accepted. *)
+Definition ghist_ok (c : bool * (list xop * list obs)) : bool :=
+  fst c && xhist_ok (snd c).
+
 Fixpoint bad_from {A : Type} (ok : A -> bool) (i : nat) (l : list A) : list nat :=
   match l with
   | [] => []
